@@ -1470,6 +1470,130 @@ func propC19(g *G, w *CaseW, rep *Report, thorough bool) {
 		emitMsgSig(w, []byte(g.message()), []int{-1, 0, 2, 5, 30}[g.n(5)], -1, uint(g.n(8)), 0)
 		rep.Cases++
 	}
+	// the three string signatures on their own (model StrSig.v against the code), and the documented dependence on
+	// character classes only: replacing letters and digits inside their class leaves the signature alone
+	for i := 0; i < scale(thorough, 1500, 20000); i++ {
+		s := g.sigString()
+		r1 := emitStrSig(w, []byte(s))
+		s2 := g.sameClasses(s)
+		r2 := emitStrSig(w, []byte(s2))
+		rep.OracleEval++
+		if r1 != r2 {
+			rep.violate(fmt.Sprintf("string signature %04x of %q differs from %04x of %q (same character classes)", r1, s, r2, s2), "sig-classes",
+				map[string]interface{}{"s": s, "s2": s2})
+		}
+		if _, _, p := emitCallIDSig(w, []byte(g.callidString())); p != "" {
+			rep.violate("GetCallIDSig panics: "+p, "panic:GetCallIDSig", map[string]interface{}{"s": s})
+		}
+		if _, _, p := emitViaBrSig(w, []byte(g.viaBody())); p != "" {
+			rep.violate("GetViaBrSig panics: "+p, "panic:GetViaBrSig", map[string]interface{}{"s": s})
+		}
+		rep.Cases += 4
+	}
+}
+
+// strings for the character-class signatures: blocks of digits / hex / base64 / letters joined by reserved characters
+func (g *G) sigBlock() string {
+	n := g.n(12)
+	if g.p(20) {
+		n = []int{0, 1, 7, 8, 9, 16}[g.n(6)]
+	}
+	set := g.pick("0123456789", "0123456789abcdef", "0123456789ABCDEF", "abcdefghijklmnopqrstuvwxyzABCDEFGHIJKLMNOPQRSTUVWXYZ0123456789",
+		"ghijklmnopqrstuvwxyz", "GHIJKLMNOPQRSTUVWXYZ", "abcdefABCDEF0123456789", "0123456789abcdef~!$")
+	b := make([]byte, n)
+	for i := range b {
+		b[i] = set[g.n(len(set))]
+	}
+	return string(b)
+}
+func (g *G) sigString() string {
+	var sb strings.Builder
+	k := 1 + g.n(5)
+	sep := g.pick("-", ".", ":", "@", "_", "*", "+", "/", "=", "|")
+	for i := 0; i < k; i++ {
+		if i > 0 {
+			if g.p(80) {
+				sb.WriteString(sep)
+			} else {
+				sb.WriteString(g.pick("-", ".", ":", "@", "_", "*", "+", "/", "=", "|", "==", "~", " "))
+			}
+		}
+		sb.WriteString(g.sigBlock())
+	}
+	if g.p(25) {
+		sb.WriteString(g.pick("=", "==", "===", "=a", "+", "/"))
+	}
+	return sb.String()
+}
+
+// the same string with every letter / digit replaced by another one of its class (digit, a-f, A-F, g-z, G-Z)
+func (g *G) sameClasses(s string) string {
+	b := []byte(s)
+	for i, c := range b {
+		switch {
+		case c >= '0' && c <= '9':
+			b[i] = byte('0' + g.n(10))
+		case c >= 'a' && c <= 'f':
+			b[i] = byte('a' + g.n(6))
+		case c >= 'A' && c <= 'F':
+			b[i] = byte('A' + g.n(6))
+		case c >= 'g' && c <= 'z':
+			b[i] = byte('g' + g.n(20))
+		case c >= 'G' && c <= 'Z':
+			b[i] = byte('G' + g.n(20))
+		}
+	}
+	return string(b)
+}
+func (g *G) callidString() string {
+	ip := g.pick("192.168.1.10", "10.0.0.1", "1.2.3.4", "255.255.255.255", "2001:db8::1", "[2001:db8::1]", "fe80::1:2:3", "::1", "1.2.3", "300.1.1.1")
+	a, b := g.sigString(), g.sigString()
+	j := g.pick("@", "-", ".", "", ":", "_", "=")
+	switch g.n(6) {
+	case 0:
+		return ip + j + b
+	case 1:
+		return a + j + ip
+	case 2:
+		return a + j + ip + g.pick("@", "-", "", ".") + b
+	case 3:
+		return ip
+	case 4:
+		return a
+	}
+	return a + "@" + g.pick("host.example.com", "h", ip+":5060")
+}
+func (g *G) viaBody() string {
+	var sb strings.Builder
+	sb.WriteString(g.pick("SIP/2.0/UDP h.example.com:5060", "SIP/2.0/TCP 1.2.3.4", "SIP/2.0/UDP h", ""))
+	k := g.n(5)
+	for i := 0; i < k; i++ {
+		sb.WriteString(g.pick(";", " ;", "; ", ";"))
+		switch g.n(9) {
+		case 0:
+			sb.WriteString("branch=z9hG4bK" + g.sigString())
+		case 1:
+			sb.WriteString("branch=" + g.sigString())
+		case 2:
+			sb.WriteString(g.pick("BRANCH", "Branch", "branch") + g.pick("=", " = ", "= ") + g.pick("Z9HG4BK", "z9hg4bk", "z9hG4bK", "z9hG4b") + g.sigBlock())
+		case 3:
+			sb.WriteString("rport")
+		case 4:
+			sb.WriteString("received=" + g.pick("1.2.3.4", "h"))
+		case 5:
+			sb.WriteString("branch" + g.pick("", "=", "=\"q-1\"", "=z9hG4bK"))
+		case 6:
+			sb.WriteString("branc=" + g.sigBlock())
+		case 7:
+			sb.WriteString("ttl=1" + g.pick("", ",SIP/2.0/UDP x;branch=z9hG4bKsecond", " ,x"))
+		default:
+			sb.WriteString(g.alnum(1, 7) + "=" + g.alnum(0, 5))
+		}
+	}
+	if g.p(15) {
+		sb.WriteString(g.pick(",", ", SIP/2.0/UDP y;branch=abc", ";", "\r\n", " "))
+	}
+	return sb.String()
 }
 
 func emitMsgSigQuiet(buf []byte, hcap int) sigRes { return msgSig(buf, hcap, -1, 0, 0) }
